@@ -338,7 +338,27 @@ def check_kernel(ctx, src, S, statics, label, cases, other=None):
     cases.append((prog, nargs, clist([cstr(z) for z in statics]), got, rep))
 
 
+def translated_transfer_functions(ctx):
+    """the analysis's transfer functions read from source on every run (harness/gen/zone_translate.py, fail-closed): the handlers of
+    impl/{spec,grid,py}.py, get_grid_lattice / eval_stmt_fallback and lattice.py's hierarchy become astep_src, proved equal to
+    Model.ZoneAn.astep for every statement, environment and set of static names"""
+    from gen import zone_translate
+    from vcommon import paths
+    name = "analysis/zone/{analysis,lattice}.py and impl/{spec,grid,py}.py are inside the translated fragment (generated model Gen_C10_src.v)"
+    try:
+        body = zone_translate.generate(paths.REPO)
+    except Exception as e:
+        ctx.obligation(name, False, f"{type(e).__name__}: {e}"[:300])
+        return
+    ctx.obligation(name, True)
+    ok, log = coqrun.compile_lemma_file(ctx.bdir, "Gen_C10_src", body, timeout=300)
+    closed = log.count("Closed under the global context")
+    ctx.obligation("the translated transfer functions equal Model.ZoneAn.astep for every statement and environment (astep_src_eq, arun_src), "
+                   "closed under the global context", ok and closed >= 2, log[-600:])
+
+
 def run(ctx):
+    translated_transfer_functions(ctx)
     SP = specs()
     ctx.rule = ("straight-line @move kernels combining valid/invalid static lookups, special grids, indexing (ints, slices, ascending lists, negative "
                 "indices), sub_grid, views of views, shift/scale/repeat, aliases, tuple/list containers, branch-joined values and subroutine calls, "
